@@ -432,6 +432,15 @@ func c01Concurrent(w *vfWorld, rec *vfRecorder, idx int) {
 		}
 	}
 
+	// a connection which went away under the scenario (the harness never closes one here) leaves requests without
+	// replies for reasons outside the property: the scenario is not judged, only counted
+	for _, s := range ss {
+		if s.c.isClosed() {
+			r.InfoAdd("scenarios_not_judged_connection_lost", 1)
+			r.Eval("skipped/" + kind)
+			return
+		}
+	}
 	// ---- oracles
 	key := fmt.Sprintf("%s/u%d/s%d/obo%v/b%d", kind, nusers, len(ss), useObo, bursts)
 	r.Eval(key + "/" + vfkit.Hash(c01Shape(allOps)))
